@@ -89,7 +89,6 @@ Qed.
 Definition sb_op_ok (o : bop) : Prop :=
   match o with
   | BPwc n xs => length xs <= n          (* at most the n bytes asked for are written into the span *)
-  | BCommitOver _ _ => False             (* handled by the guard theorems below *)
   | _ => True
   end.
 
@@ -128,7 +127,7 @@ Proof.
     destruct (Nat.leb_spec (sbsize b + length xs) (length (sbdata b) + k)); [|lia]. cbn [rbind].
     unfold sb_commit; cbn [sbdata sbsize]. rewrite length_overwrite by (rewrite app_length, repeat_length; lia).
     rewrite app_length, repeat_length.
-    destruct (Nat.leb_spec (sbsize b + length xs) (length (sbdata b) + k)); [|lia].
+    destruct (Nat.ltb_spec (sbsize b + length xs) (length (sbdata b) + k)); [|lia]. rewrite orb_true_r.
     destruct b as [d s]; cbn [sbdata sbsize] in *.
     destruct (sb_ext_wf d s k W B ltac:(lia)) as (W' & V').
     destruct (sb_append_ok (d ++ repeat 0%Z k) s xs W' ltac:(rewrite app_length, repeat_length; lia)) as (W'' & V'').
@@ -181,6 +180,11 @@ Proof.
     + cbn [rbind]. assert (s = 0) by lia. subst s. eexists; split; [reflexivity|]. split; [assumption|reflexivity].
   - (* promote *)
     eexists; split; [reflexivity|]. split; [left; auto|reflexivity].
+  - (* commit of more than the prepared span: stopped *)
+    destruct (sb_prepare_ok n b W) as (k & -> & A & B). cbn [rbind fst snd].
+    unfold sb_commit; cbn [sbdata sbsize]. rewrite app_length, repeat_length.
+    destruct (Nat.eqb_spec (sbsize b + (length (sbdata b) + k - sbsize b - 1 + 1 + d)) (sbsize b)); [lia|].
+    destruct (Nat.ltb_spec (sbsize b + (length (sbdata b) + k - sbsize b - 1 + 1 + d)) (length (sbdata b) + k)); [lia|reflexivity].
   - (* prepare *)
     destruct (sb_prepare_ok n b W) as (k & -> & A & B). cbn [rbind fst].
     destruct b as [d s]; cbn [sbdata sbsize] in *.
@@ -221,33 +225,32 @@ Proof.
   intros b W NE. unfold sb_nul_slot. destruct W as [[E _]|(A & _ & Z)]; [contradiction|]. apply Z; lia.
 Qed.
 
-(* ---- the commit guard.  Documented precondition: "a call to prepare must be preceded ..., and its returned
-   span length must have at least n bytes".  Full strength: committing more than the prepared span is stopped. *)
-Definition sb_commit_guard_full : Prop :=
-  forall n d b, sb_wf b -> sb_step (BCommitOver n d) b = Trap TrapNoSpace.
-
-(* refuted on the unchanged code: `check(newsize <= self.data.size)` admits span.size + 1 *)
-Theorem sb_commit_guard_refuted : ~ sb_commit_guard_full.
+(* ---- the commit guard (repaired in /repo 8abaeda).  Documented precondition: "a call to prepare must be preceded
+   ..., and its returned span length must have at least n bytes".  Full strength: commit succeeds exactly when it
+   leaves the NUL slot in place (or commits nothing), a successful commit keeps the builder well formed, and
+   committing more than the prepared span is stopped. *)
+Theorem sb_commit_exact : forall n b, sb_wf b ->
+  (n = 0 \/ sbsize b + n < length (sbdata b) ->
+     exists b', sb_commit n b = Ok b' /\ sb_wf b' /\ sbsize b' = sbsize b + n /\ sbdata b' = sbdata b) /\
+  (n <> 0 /\ length (sbdata b) <= sbsize b + n -> sb_commit n b = Trap TrapNoSpace).
 Proof.
-  intros H. specialize (H 0 0 sb_empty (or_introl (conj eq_refl eq_refl))).
-  vm_compute in H. discriminate.
+  intros n [d s] W. unfold sb_commit; cbn [sbdata sbsize]. split.
+  - intros H. assert ((s + n =? s) || (s + n <? length d) = true) as ->.
+    { destruct H as [->|H]; [rewrite Nat.add_0_r, Nat.eqb_refl; reflexivity|].
+      apply orb_true_iff. right. apply Nat.ltb_lt. assumption. }
+    eexists; split; [reflexivity|]. split; [|split; reflexivity].
+    destruct H as [->|H]; [rewrite Nat.add_0_r; assumption|].
+    right. cbn [sbdata sbsize]. sb_cases W; [cbn in H; lia|].
+    split; [assumption|]. split; [assumption|]. intros i Hi Hl. apply W3; lia.
+  - intros [H1 H2]. destruct (Nat.eqb_spec (s + n) s); [lia|]. destruct (Nat.ltb_spec (s + n) (length d)); [lia|]. reflexivity.
 Qed.
 
-(* ... and the builder it leaves has no NUL slot any more *)
-Theorem sb_commit_over_loses_nul_slot :
-  exists b', sb_step (BCommitOver 0 0) sb_empty = Ok (b', BUnit) /\ sb_nul_slot b' = None /\ ~ sb_wf b'.
+Theorem sb_commit_guard : forall n d b, sb_wf b -> sb_step (BCommitOver n d) b = Trap TrapNoSpace.
 Proof.
-  eexists. split; [vm_compute; reflexivity|]. split; [vm_compute; reflexivity|].
-  intros [[E _]|(A & _)]; [vm_compute in E; discriminate|vm_compute in A; lia].
-Qed.
-
-(* strongest true restriction: exceeding the span by two or more bytes is stopped *)
-Theorem sb_commit_guard_partial : forall n d b, sb_wf b -> 0 < d ->
-  sb_step (BCommitOver n d) b = Trap TrapNoSpace.
-Proof.
-  intros n d b W Hd. cbn [sb_step]. destruct (sb_prepare_ok n b W) as (k & -> & A & B). cbn [rbind fst snd].
+  intros n d b W. cbn [sb_step]. destruct (sb_prepare_ok n b W) as (k & -> & A & B). cbn [rbind fst snd].
   unfold sb_commit; cbn [sbdata sbsize]. rewrite app_length, repeat_length.
-  destruct (Nat.leb_spec (sbsize b + (length (sbdata b) + k - sbsize b - 1 + 1 + d)) (length (sbdata b) + k)); [lia|reflexivity].
+  destruct (Nat.eqb_spec (sbsize b + (length (sbdata b) + k - sbsize b - 1 + 1 + d)) (sbsize b)); [lia|].
+  destruct (Nat.ltb_spec (sbsize b + (length (sbdata b) + k - sbsize b - 1 + 1 + d)) (length (sbdata b) + k)); [lia|reflexivity].
 Qed.
 
 (* rollback guard at full strength *)
